@@ -1,12 +1,18 @@
 //! Query templates over tables a, b (schema id, k, s, v) with independent reference evaluators.
-//! References exist for joins, grouped aggregation, DISTINCT and sorts (C05/C06/C08); the other
-//! templates are compared with the baseline configuration (C02).
+//! References exist for joins, grouped aggregation, DISTINCT, set operations, sorts and top-n shapes
+//! (C05/C06/C08); the other templates are compared with the baseline configuration (C02).
+//!
+//! Key and value *types* are varied without touching the stored data: a template may read its tables
+//! through a derived table that casts `k` (Int32) to another type (`kt`: Int64, Float64, Decimal,
+//! Boolean, Date32, Utf8, Dictionary, Utf8View, UInt16, Int8) and `v` (Int64) to another (`vt`:
+//! Float64, Decimal, Int32), so that the type-specialised paths of the operators (group values,
+//! sort cursors, join hash maps, accumulators) are reached; the reference applies the same mapping.
 
 use crate::data::Row;
 use crate::sqlsim::Cells;
 use dst_common::rng::Rng;
 use serde_json::{Value, json};
-use std::collections::BTreeMap;
+use std::collections::{BTreeMap, BTreeSet};
 
 #[derive(Clone, Copy, PartialEq)]
 pub enum Family {
@@ -14,6 +20,28 @@ pub enum Family {
     Agg,
     Sort,
     Any,
+}
+
+/// How a result is compared with the expected rows.
+#[derive(Clone, Debug, PartialEq)]
+pub enum Compare {
+    Multiset,
+    Sequence,
+    /// `LIMIT n` without a total order: any n rows (or all, if fewer) of the universe, none twice
+    LimitAny,
+    /// top-n with ties: the sequence of the columns from `from` on must equal the expected one,
+    /// every row must be a row of the universe, none twice
+    TopTies { from: usize },
+}
+
+const KTS: &[&str] = &["i32", "i32", "i32", "i64", "f64", "dec", "bool", "date", "utf8", "dict", "view", "u16", "i8"];
+const VTS: &[&str] = &["i64", "i64", "i64", "f64", "dec", "i32"];
+
+fn pick_kt(rng: &mut Rng) -> &'static str {
+    *rng.pick(KTS)
+}
+fn pick_vt(rng: &mut Rng) -> &'static str {
+    *rng.pick(VTS)
 }
 
 pub fn generate(rng: &mut Rng, fam: Family) -> Value {
@@ -27,11 +55,13 @@ pub fn generate(rng: &mut Rng, fam: Family) -> Value {
     } else {
         fam
     };
-    match fam {
-        Family::Join => match rng.below(10) {
+    let mut q = match fam {
+        Family::Join => match rng.below(14) {
             0 => json!({"t": "nlj", "jt": *rng.pick(&["inner", "left", "right", "full", "semi", "anti", "rsemi", "ranti"])}),
             1 => json!({"t": "cross"}),
             2 => json!({"t": "notin"}),
+            3 => json!({"t": "mark", "residual": rng.chance(1, 3), "c": rng.below(700) as i64 - 300, "neg": rng.chance(1, 3)}),
+            4 => json!({"t": "setop", "op": *rng.pick(&["intersect", "except"]), "cols": *rng.pick(&["k", "ks", "s"])}),
             _ => json!({
                 "t": "join",
                 "jt": *rng.pick(&["inner", "inner", "left", "right", "full", "semi", "anti", "rsemi", "ranti"]),
@@ -40,30 +70,56 @@ pub fn generate(rng: &mut Rng, fam: Family) -> Value {
                 "key": *rng.pick(&["k", "k", "s", "ks"]),
             }),
         },
-        Family::Agg => match rng.below(8) {
+        Family::Agg => match rng.below(16) {
             0 => json!({"t": "global"}),
             1 => json!({"t": "distinct"}),
             2 => json!({"t": "topk_agg", "n": rng.range(1, 4)}),
             3 | 4 => json!({"t": "groupby_filter", "keys": *rng.pick(&["k", "s", "ks"]), "c": rng.below(300) as i64 - 100}),
+            5 => json!({"t": "groupby_ord", "keys": *rng.pick(&["k", "s", "ks"])}),
+            6 => json!({"t": "rollup", "kind": *rng.pick(&["rollup", "cube", "sets"])}),
+            7 => json!({"t": "having", "keys": *rng.pick(&["k", "s", "ks"]), "n": rng.range(0, 3), "c": rng.below(700) as i64 - 300}),
+            8 => json!({"t": "distinct_aggs", "keys": *rng.pick(&["k", "s"]), "single": rng.chance(1, 2)}),
+            9 => json!({"t": "groupby_str", "keys": *rng.pick(&["k", "ks"])}),
+            10 => json!({"t": "topk_ties", "agg": *rng.pick(&["min", "max"]), "desc": rng.chance(1, 2), "key": *rng.pick(&["k", "s"]), "n": rng.range(1, 5)}),
+            11 => json!({"t": "distinct_limit", "n": rng.range(0, 6)}),
             _ => json!({"t": "groupby", "keys": *rng.pick(&["k", "k", "s", "ks"])}),
         },
-        Family::Sort if rng.chance(1, 3) => json!({
-            // single-column key (primitive / string cursors instead of the row format); only the key
-            // is projected, so ties are indistinguishable and the sequence is still determined
-            "t": "sort1",
-            "by": *rng.pick(&["s", "s", "k", "v"]),
-            "desc": rng.chance(1, 2),
-            "nulls_first": rng.chance(1, 2),
-            "limit": if rng.chance(1, 3) { json!(rng.range(0, 12)) } else { Value::Null },
-        }),
-        Family::Sort => json!({
-            "t": "sort",
-            "by": *rng.pick(&["k", "k", "s", "v"]),
-            "desc": rng.chance(1, 2),
-            "nulls_first": rng.chance(1, 2),
-            "limit": if rng.chance(1, 2) { json!(rng.range(0, 12)) } else { Value::Null },
-        }),
-        Family::Any => match rng.below(11) {
+        Family::Sort => match rng.below(12) {
+            0..=2 => json!({
+                // single-column key (primitive / string cursors instead of the row format); only the key
+                // is projected, so ties are indistinguishable and the sequence is still determined
+                "t": "sort1",
+                "by": *rng.pick(&["s", "s", "k", "v"]),
+                "desc": rng.chance(1, 2),
+                "nulls_first": rng.chance(1, 2),
+                "limit": if rng.chance(1, 3) { json!(rng.range(0, 12)) } else { Value::Null },
+            }),
+            3 | 4 => json!({
+                "t": "sort2",
+                "by": [*rng.pick(&["k", "s", "v"]), *rng.pick(&["k", "s", "v"])],
+                "desc": [rng.chance(1, 2), rng.chance(1, 2)],
+                "nulls_first": [rng.chance(1, 2), rng.chance(1, 2)],
+                "limit": if rng.chance(1, 2) { json!(rng.range(0, 12)) } else { Value::Null },
+                "offset": if rng.chance(1, 4) { json!(rng.range(0, 5)) } else { Value::Null },
+            }),
+            5 => json!({
+                "t": "window_topn",
+                "f": *rng.pick(&["row_number", "row_number", "rank", "dense_rank"]),
+                "desc": rng.chance(1, 2),
+                "nulls_first": rng.chance(1, 2),
+                "n": rng.range(1, 4),
+            }),
+            6 => json!({"t": "limit_any", "c": rng.below(700) as i64 - 300, "n": rng.range(0, 12), "m": if rng.chance(1, 3) { rng.range(0, 4) } else { 0 }}),
+            7 => json!({"t": "union_sorted", "desc": rng.chance(1, 2), "limit": if rng.chance(1, 2) { json!(rng.range(0, 12)) } else { Value::Null }}),
+            _ => json!({
+                "t": "sort",
+                "by": *rng.pick(&["k", "k", "s", "v"]),
+                "desc": rng.chance(1, 2),
+                "nulls_first": rng.chance(1, 2),
+                "limit": if rng.chance(1, 2) { json!(rng.range(0, 12)) } else { Value::Null },
+            }),
+        },
+        Family::Any => match rng.below(18) {
             9 | 10 => json!({"t": "groupby_avg", "keys": *rng.pick(&["k", "s", "ks"]), "c": rng.below(300) as i64 - 100}),
             0 => json!({"t": "filter", "c": rng.below(400) as i64 - 100}),
             1 => json!({"t": "union_all"}),
@@ -73,10 +129,115 @@ pub fn generate(rng: &mut Rng, fam: Family) -> Value {
             5 => json!({"t": "join_agg"}),
             6 => json!({"t": "in_subquery"}),
             7 => json!({"t": "scalar_subquery"}),
+            11 => json!({"t": "window_rank"}),
+            12 => json!({"t": "window_lag"}),
+            13 => json!({"t": "window_range"}),
+            14 => json!({"t": "window_unbounded"}),
+            15 => json!({"t": "join3"}),
+            16 => json!({"t": "cte_reuse"}),
             _ => json!({"t": "limit", "n": rng.range(0, 10), "m": rng.range(0, 5)}),
         },
+    };
+    // type variants (a third of the queries)
+    if rng.chance(1, 3) {
+        q["kt"] = json!(pick_kt(rng));
     }
+    if rng.chance(1, 5) {
+        q["vt"] = json!(pick_vt(rng));
+    }
+    q
 }
+
+// ---------------------------------------------------------------------------------------
+// type variants
+
+fn kt_of(q: &Value) -> &str {
+    q.get("kt").and_then(|x| x.as_str()).unwrap_or("i32")
+}
+fn vt_of(q: &Value) -> &str {
+    q.get("vt").and_then(|x| x.as_str()).unwrap_or("i64")
+}
+
+fn kexpr(kt: &str) -> Option<&'static str> {
+    Some(match kt {
+        "i32" => "k",
+        "i64" => "CAST(k AS BIGINT)",
+        "f64" => "CAST(k AS DOUBLE) / 2",
+        "dec" => "CAST(k AS DECIMAL(10,2))",
+        "bool" => "(k % 2 = 0)",
+        "date" => "CAST(k AS DATE)",
+        "utf8" => "CAST(k AS VARCHAR)",
+        "dict" => "arrow_cast(CAST(k AS VARCHAR), 'Dictionary(Int32, Utf8)')",
+        "view" => "arrow_cast(CAST(k AS VARCHAR), 'Utf8View')",
+        "u16" => "arrow_cast(k, 'UInt16')",
+        "i8" => "arrow_cast(k, 'Int8')",
+        _ => return None,
+    })
+}
+fn vexpr(vt: &str) -> Option<&'static str> {
+    Some(match vt {
+        "i64" => "v",
+        "f64" => "CAST(v AS DOUBLE)",
+        "dec" => "CAST(v AS DECIMAL(12,2))",
+        "i32" => "CAST(v AS INT)",
+        _ => return None,
+    })
+}
+
+/// The table expression for `name` under the query's type variants.
+fn tbl(q: &Value, name: &str) -> Option<String> {
+    tbl_as(q, name, name)
+}
+fn tbl_as(q: &Value, name: &str, alias: &str) -> Option<String> {
+    let (kt, vt) = (kt_of(q), vt_of(q));
+    let (ke, ve) = (kexpr(kt)?, vexpr(vt)?);
+    Some(if kt == "i32" && vt == "i64" {
+        if name == alias { name.to_string() } else { format!("{name} AS {alias}") }
+    } else {
+        format!("(SELECT id, {ke} AS k, s, {ve} AS v FROM {name}) AS {alias}")
+    })
+}
+
+/// A key after the type mapping: what it compares as, and how the engine prints it.
+#[derive(Clone, Debug, PartialEq, Eq, PartialOrd, Ord)]
+pub enum KOrd {
+    I(i64),
+    S(String),
+}
+fn kmap(kt: &str, k: Option<i32>) -> Option<KOrd> {
+    let k = k?;
+    Some(match kt {
+        "bool" => KOrd::I((k % 2 == 0) as i64),
+        "utf8" | "dict" | "view" => KOrd::S(k.to_string()),
+        _ => KOrd::I(k as i64),
+    })
+}
+fn ktext(kt: &str, k: Option<i32>) -> Option<String> {
+    let k = k?;
+    Some(match kt {
+        "f64" => {
+            if k % 2 == 0 { format!("{}.0", k / 2) } else { format!("{}.5", k / 2) }
+        }
+        "dec" => format!("{k}.00"),
+        "bool" => (k % 2 == 0).to_string(),
+        "date" => {
+            // days since the epoch; generated keys are < 28
+            format!("1970-01-{:02}", k + 1)
+        }
+        _ => k.to_string(),
+    })
+}
+fn vtext(vt: &str, v: Option<i64>) -> Option<String> {
+    let v = v?;
+    Some(match vt {
+        "f64" => format!("{v}.0"),
+        "dec" => format!("{v}.00"),
+        _ => v.to_string(),
+    })
+}
+
+// ---------------------------------------------------------------------------------------
+// SQL text
 
 fn key_cond(key: &str, nulleq: bool) -> Option<String> {
     let op = if nulleq { "IS NOT DISTINCT FROM" } else { "=" };
@@ -88,9 +249,36 @@ fn key_cond(key: &str, nulleq: bool) -> Option<String> {
         _ => return None,
     })
 }
+fn group_keys(q: &Value) -> Option<&'static str> {
+    Some(match q.get("keys")?.as_str()? {
+        "k" => "k",
+        "s" => "s",
+        "ks" => "k, s",
+        _ => return None,
+    })
+}
+fn dir(desc: bool) -> &'static str {
+    if desc { "DESC" } else { "ASC" }
+}
+fn nulls(first: bool) -> &'static str {
+    if first { "NULLS FIRST" } else { "NULLS LAST" }
+}
+fn limit_clause(q: &Value) -> Option<String> {
+    let mut s = match q.get("limit") {
+        Some(Value::Null) | None => String::new(),
+        Some(n) => format!(" LIMIT {}", n.as_u64()?),
+    };
+    match q.get("offset") {
+        Some(Value::Null) | None => {}
+        Some(n) => s.push_str(&format!(" OFFSET {}", n.as_u64()?)),
+    }
+    Some(s)
+}
 
 pub fn sql(q: &Value) -> Option<String> {
     let t = q.get("t")?.as_str()?;
+    let a = tbl(q, "a")?;
+    let b = tbl(q, "b")?;
     Some(match t {
         "join" => {
             let jt = q.get("jt")?.as_str()?;
@@ -100,64 +288,129 @@ pub fn sql(q: &Value) -> Option<String> {
             }
             match jt {
                 "inner" | "left" | "right" | "full" => {
-                    format!("SELECT a.id, b.id FROM a {} JOIN b ON {cond}", jt.to_uppercase())
+                    format!("SELECT a.id, b.id FROM {a} {} JOIN {b} ON {cond}", jt.to_uppercase())
                 }
-                "semi" => format!("SELECT a.id FROM a LEFT SEMI JOIN b ON {cond}"),
-                "anti" => format!("SELECT a.id FROM a LEFT ANTI JOIN b ON {cond}"),
-                "rsemi" => format!("SELECT b.id FROM a RIGHT SEMI JOIN b ON {cond}"),
-                "ranti" => format!("SELECT b.id FROM a RIGHT ANTI JOIN b ON {cond}"),
+                "semi" => format!("SELECT a.id FROM {a} LEFT SEMI JOIN {b} ON {cond}"),
+                "anti" => format!("SELECT a.id FROM {a} LEFT ANTI JOIN {b} ON {cond}"),
+                "rsemi" => format!("SELECT b.id FROM {a} RIGHT SEMI JOIN {b} ON {cond}"),
+                "ranti" => format!("SELECT b.id FROM {a} RIGHT ANTI JOIN {b} ON {cond}"),
                 _ => return None,
             }
         }
         "nlj" => {
             let jt = q.get("jt")?.as_str()?;
             match jt {
-                "inner" | "left" | "right" | "full" => format!("SELECT a.id, b.id FROM a {} JOIN b ON a.v < b.v", jt.to_uppercase()),
-                "semi" => "SELECT a.id FROM a LEFT SEMI JOIN b ON a.v < b.v".to_string(),
-                "anti" => "SELECT a.id FROM a LEFT ANTI JOIN b ON a.v < b.v".to_string(),
-                "rsemi" => "SELECT b.id FROM a RIGHT SEMI JOIN b ON a.v < b.v".to_string(),
-                "ranti" => "SELECT b.id FROM a RIGHT ANTI JOIN b ON a.v < b.v".to_string(),
+                "inner" | "left" | "right" | "full" => format!("SELECT a.id, b.id FROM {a} {} JOIN {b} ON a.v < b.v", jt.to_uppercase()),
+                "semi" => format!("SELECT a.id FROM {a} LEFT SEMI JOIN {b} ON a.v < b.v"),
+                "anti" => format!("SELECT a.id FROM {a} LEFT ANTI JOIN {b} ON a.v < b.v"),
+                "rsemi" => format!("SELECT b.id FROM {a} RIGHT SEMI JOIN {b} ON a.v < b.v"),
+                "ranti" => format!("SELECT b.id FROM {a} RIGHT ANTI JOIN {b} ON a.v < b.v"),
                 _ => return None,
             }
         }
-        "cross" => "SELECT a.id, b.id FROM a CROSS JOIN b".to_string(),
-        "notin" => "SELECT id FROM a WHERE k NOT IN (SELECT k FROM b)".to_string(),
-        "groupby" => {
-            let keys = match q.get("keys")?.as_str()? {
+        "cross" => format!("SELECT a.id, b.id FROM {a} CROSS JOIN {b}"),
+        "notin" => format!("SELECT id FROM {a} WHERE k NOT IN (SELECT k FROM {b})"),
+        "mark" => {
+            let res = if q.get("residual")?.as_bool()? { " AND a.v < b.v" } else { "" };
+            let neg = if q.get("neg")?.as_bool()? { "NOT " } else { "" };
+            format!("SELECT a.id FROM {a} WHERE {neg}EXISTS (SELECT 1 FROM {b} WHERE a.k = b.k{res}) OR a.v > {}", q.get("c")?.as_i64()?)
+        }
+        "setop" => {
+            let cols = match q.get("cols")?.as_str()? {
                 "k" => "k",
                 "s" => "s",
                 "ks" => "k, s",
                 _ => return None,
             };
-            format!("SELECT {keys}, count(*), count(v), sum(v), min(v), max(v), count(DISTINCT v) FROM a GROUP BY {keys}")
+            let op = match q.get("op")?.as_str()? {
+                "intersect" => "INTERSECT",
+                "except" => "EXCEPT",
+                _ => return None,
+            };
+            format!("SELECT {cols} FROM {a} {op} SELECT {cols} FROM {b}")
+        }
+        "groupby" => {
+            let keys = group_keys(q)?;
+            format!("SELECT {keys}, count(*), count(v), sum(v), min(v), max(v), count(DISTINCT v) FROM {a} GROUP BY {keys}")
         }
         "groupby_filter" => {
-            let keys = match q.get("keys")?.as_str()? {
-                "k" => "k",
-                "s" => "s",
-                "ks" => "k, s",
-                _ => return None,
-            };
+            let keys = group_keys(q)?;
             let c = q.get("c")?.as_i64()?;
             format!(
-                "SELECT {keys}, count(*) FILTER (WHERE v > {c}), sum(1) FILTER (WHERE v > {c}), sum(v) FILTER (WHERE v > {c}), count(*), max(v) FILTER (WHERE k IS NOT NULL) FROM a GROUP BY {keys}"
+                "SELECT {keys}, count(*) FILTER (WHERE v > {c}), sum(1) FILTER (WHERE v > {c}), sum(v) FILTER (WHERE v > {c}), count(*), max(v) FILTER (WHERE k IS NOT NULL) FROM {a} GROUP BY {keys}"
             )
         }
         "groupby_avg" => {
-            let keys = match q.get("keys")?.as_str()? {
+            let keys = group_keys(q)?;
+            let c = q.get("c")?.as_i64()?;
+            // (small integers: the float average is exact, so it cannot depend on the summation order)
+            format!("SELECT {keys}, avg(v), avg(v) FILTER (WHERE v > {c}), count(v), min(s), max(s) FROM {a} GROUP BY {keys}")
+        }
+        "groupby_ord" => {
+            let keys = group_keys(q)?;
+            format!(
+                "SELECT {keys}, first_value(v ORDER BY id), last_value(v ORDER BY id), nth_value(v, 2 ORDER BY id), string_agg(s, '|' ORDER BY id), count(*) FROM {a} GROUP BY {keys}"
+            )
+        }
+        "rollup" => {
+            let g = match q.get("kind")?.as_str()? {
+                "rollup" => "ROLLUP(k, s)",
+                "cube" => "CUBE(k, s)",
+                "sets" => "GROUPING SETS ((k), (s), ())",
+                _ => return None,
+            };
+            format!("SELECT k, s, count(*), sum(v) FROM {a} GROUP BY {g}")
+        }
+        "having" => {
+            let keys = group_keys(q)?;
+            format!(
+                "SELECT {keys}, count(*), max(v) FROM {a} GROUP BY {keys} HAVING count(*) > {} AND (max(v) > {} OR min(v) IS NULL)",
+                q.get("n")?.as_u64()?,
+                q.get("c")?.as_i64()?
+            )
+        }
+        "distinct_aggs" => {
+            let key = match q.get("keys")?.as_str()? {
                 "k" => "k",
                 "s" => "s",
+                _ => return None,
+            };
+            if q.get("single")?.as_bool()? {
+                format!("SELECT {key}, count(DISTINCT v), sum(DISTINCT v) FROM {a} GROUP BY {key}")
+            } else {
+                format!("SELECT {key}, count(DISTINCT v), count(DISTINCT s), count(*) FROM {a} GROUP BY {key}")
+            }
+        }
+        "groupby_str" => {
+            let keys = match q.get("keys")?.as_str()? {
+                "k" => "k",
                 "ks" => "k, s",
                 _ => return None,
             };
-            let c = q.get("c")?.as_i64()?;
-            // (small integers: the float average is exact, so it cannot depend on the summation order)
-            format!("SELECT {keys}, avg(v), avg(v) FILTER (WHERE v > {c}), count(v), min(s), max(s) FROM a GROUP BY {keys}")
+            format!("SELECT {keys}, min(s), max(s), count(s), bool_and(v > 0), bool_or(v > 0) FROM {a} GROUP BY {keys}")
         }
-        "global" => "SELECT count(*), count(v), sum(v), min(v), max(v), count(DISTINCT k) FROM a".to_string(),
-        "distinct" => "SELECT DISTINCT k, s FROM a".to_string(),
+        "topk_ties" => {
+            let key = match q.get("key")?.as_str()? {
+                "k" => "k",
+                "s" => "s",
+                _ => return None,
+            };
+            let agg = match q.get("agg")?.as_str()? {
+                "min" => "min",
+                "max" => "max",
+                _ => return None,
+            };
+            format!(
+                "SELECT {key}, {agg}(v) FROM {a} GROUP BY {key} ORDER BY {agg}(v) {} NULLS LAST LIMIT {}",
+                dir(q.get("desc")?.as_bool()?),
+                q.get("n")?.as_u64()?
+            )
+        }
+        "distinct_limit" => format!("SELECT DISTINCT k, s FROM {a} LIMIT {}", q.get("n")?.as_u64()?),
+        "global" => format!("SELECT count(*), count(v), sum(v), min(v), max(v), count(DISTINCT k) FROM {a}"),
+        "distinct" => format!("SELECT DISTINCT k, s FROM {a}"),
         "topk_agg" => format!(
-            "SELECT k, max(v) FROM a GROUP BY k ORDER BY max(v) DESC NULLS LAST, k NULLS LAST LIMIT {}",
+            "SELECT k, max(v) FROM {a} GROUP BY k ORDER BY max(v) DESC NULLS LAST, k NULLS LAST LIMIT {}",
             q.get("n")?.as_u64()?
         ),
         "sort" => {
@@ -165,36 +418,83 @@ pub fn sql(q: &Value) -> Option<String> {
             if !["k", "s", "v"].contains(&by) {
                 return None;
             }
-            let dir = if q.get("desc")?.as_bool()? { "DESC" } else { "ASC" };
-            let nulls = if q.get("nulls_first")?.as_bool()? { "NULLS FIRST" } else { "NULLS LAST" };
-            let limit = match q.get("limit") {
-                Some(Value::Null) | None => String::new(),
-                Some(n) => format!(" LIMIT {}", n.as_u64()?),
-            };
-            format!("SELECT id, k, s, v FROM a ORDER BY {by} {dir} {nulls}, id{limit}")
+            format!(
+                "SELECT id, k, s, v FROM {a} ORDER BY {by} {} {}, id{}",
+                dir(q.get("desc")?.as_bool()?),
+                nulls(q.get("nulls_first")?.as_bool()?),
+                limit_clause(q)?
+            )
         }
         "sort1" => {
             let by = q.get("by")?.as_str()?;
             if !["k", "s", "v"].contains(&by) {
                 return None;
             }
-            let dir = if q.get("desc")?.as_bool()? { "DESC" } else { "ASC" };
-            let nulls = if q.get("nulls_first")?.as_bool()? { "NULLS FIRST" } else { "NULLS LAST" };
-            let limit = match q.get("limit") {
-                Some(Value::Null) | None => String::new(),
-                Some(n) => format!(" LIMIT {}", n.as_u64()?),
-            };
-            format!("SELECT {by} FROM a ORDER BY {by} {dir} {nulls}{limit}")
+            format!("SELECT {by} FROM {a} ORDER BY {by} {} {}{}", dir(q.get("desc")?.as_bool()?), nulls(q.get("nulls_first")?.as_bool()?), limit_clause(q)?)
         }
-        "filter" => format!("SELECT id, k, s, v FROM a WHERE v > {} OR k IS NULL", q.get("c")?.as_i64()?),
-        "union_all" => "SELECT id, k FROM a UNION ALL SELECT id, k FROM b".to_string(),
-        "union" => "SELECT k FROM a UNION SELECT k FROM b".to_string(),
-        "window_sum" => "SELECT id, sum(v) OVER (PARTITION BY k ORDER BY id ROWS BETWEEN 1 PRECEDING AND CURRENT ROW) AS w FROM a".to_string(),
-        "window_rn" => "SELECT id, row_number() OVER (PARTITION BY k ORDER BY id) AS rn FROM a".to_string(),
-        "join_agg" => "SELECT a.k, count(*), sum(b.v) FROM a JOIN b ON a.k = b.k GROUP BY a.k".to_string(),
-        "in_subquery" => "SELECT id FROM a WHERE k IN (SELECT k FROM b WHERE v > 0)".to_string(),
-        "scalar_subquery" => "SELECT id FROM a WHERE v > (SELECT max(v) - 200 FROM b)".to_string(),
-        "limit" => format!("SELECT id FROM a ORDER BY id LIMIT {} OFFSET {}", q.get("n")?.as_u64()?, q.get("m")?.as_u64()?),
+        "sort2" => {
+            let by = q.get("by")?.as_array()?;
+            let desc = q.get("desc")?.as_array()?;
+            let nf = q.get("nulls_first")?.as_array()?;
+            if by.len() != 2 || desc.len() != 2 || nf.len() != 2 {
+                return None;
+            }
+            let mut terms = vec![];
+            for i in 0..2 {
+                let c = by[i].as_str()?;
+                if !["k", "s", "v"].contains(&c) {
+                    return None;
+                }
+                terms.push(format!("{c} {} {}", dir(desc[i].as_bool()?), nulls(nf[i].as_bool()?)));
+            }
+            format!("SELECT id, k, s, v FROM {a} ORDER BY {}, {}, id{}", terms[0], terms[1], limit_clause(q)?)
+        }
+        "window_topn" => {
+            let f = q.get("f")?.as_str()?;
+            if !["row_number", "rank", "dense_rank"].contains(&f) {
+                return None;
+            }
+            let tie = if f == "row_number" { ", id" } else { "" };
+            format!(
+                "SELECT id, k, v, rn FROM (SELECT id, k, v, {f}() OVER (PARTITION BY k ORDER BY v {} {}{tie}) AS rn FROM {a}) WHERE rn <= {}",
+                dir(q.get("desc")?.as_bool()?),
+                nulls(q.get("nulls_first")?.as_bool()?),
+                q.get("n")?.as_u64()?
+            )
+        }
+        "limit_any" => {
+            let m = q.get("m")?.as_u64()?;
+            let off = if m > 0 { format!(" OFFSET {m}") } else { String::new() };
+            format!("SELECT id FROM {a} WHERE v > {} LIMIT {}{off}", q.get("c")?.as_i64()?, q.get("n")?.as_u64()?)
+        }
+        "union_sorted" => format!(
+            "SELECT id, k FROM {a} UNION ALL SELECT id, k FROM {b} ORDER BY k {} NULLS LAST, id{}",
+            dir(q.get("desc")?.as_bool()?),
+            limit_clause(q)?
+        ),
+        "filter" => format!("SELECT id, k, s, v FROM {a} WHERE v > {} OR k IS NULL", q.get("c")?.as_i64()?),
+        "union_all" => format!("SELECT id, k FROM {a} UNION ALL SELECT id, k FROM {b}"),
+        "union" => format!("SELECT k FROM {a} UNION SELECT k FROM {b}"),
+        "window_sum" => format!("SELECT id, sum(v) OVER (PARTITION BY k ORDER BY id ROWS BETWEEN 1 PRECEDING AND CURRENT ROW) AS w FROM {a}"),
+        "window_rn" => format!("SELECT id, row_number() OVER (PARTITION BY k ORDER BY id) AS rn FROM {a}"),
+        "window_rank" => format!(
+            "SELECT id, rank() OVER (PARTITION BY k ORDER BY v), dense_rank() OVER (PARTITION BY k ORDER BY v DESC), ntile(3) OVER (PARTITION BY k ORDER BY id) FROM {a}"
+        ),
+        "window_lag" => format!(
+            "SELECT id, lag(v) OVER (PARTITION BY k ORDER BY id), lead(v, 2) OVER (PARTITION BY k ORDER BY id), first_value(v) OVER (PARTITION BY k ORDER BY id), last_value(v) OVER (PARTITION BY k ORDER BY id ROWS BETWEEN CURRENT ROW AND 1 FOLLOWING) FROM {a}"
+        ),
+        "window_range" => format!(
+            "SELECT id, sum(v) OVER (ORDER BY v RANGE BETWEEN 50 PRECEDING AND 50 FOLLOWING), count(*) OVER (PARTITION BY s ORDER BY v RANGE BETWEEN UNBOUNDED PRECEDING AND CURRENT ROW) FROM {a}"
+        ),
+        "window_unbounded" => format!(
+            "SELECT id, sum(v) OVER (PARTITION BY k), count(*) OVER (), max(v) OVER (PARTITION BY s ORDER BY id ROWS BETWEEN UNBOUNDED PRECEDING AND UNBOUNDED FOLLOWING) FROM {a}"
+        ),
+        "join_agg" => format!("SELECT a.k, count(*), sum(b.v) FROM {a} JOIN {b} ON a.k = b.k GROUP BY a.k"),
+        "join3" => format!("SELECT a.id, b.id, c.id FROM {a} JOIN {b} ON a.k = b.k LEFT JOIN {} ON b.s = c.s AND c.v > a.v", tbl_as(q, "a", "c")?),
+        "cte_reuse" => format!("WITH g AS (SELECT k, count(*) AS n, sum(v) AS sv FROM {a} GROUP BY k) SELECT x.k, x.n, y.sv FROM g x JOIN g y ON x.k = y.k WHERE x.n >= y.n"),
+        "in_subquery" => format!("SELECT id FROM {a} WHERE k IN (SELECT k FROM {b} WHERE v > 0)"),
+        "scalar_subquery" => format!("SELECT id FROM {a} WHERE v > (SELECT max(v) - 200 FROM {b})"),
+        "limit" => format!("SELECT id FROM {a} ORDER BY id LIMIT {} OFFSET {}", q.get("n")?.as_u64()?, q.get("m")?.as_u64()?),
         _ => return None,
     })
 }
@@ -202,39 +502,37 @@ pub fn sql(q: &Value) -> Option<String> {
 pub fn uses_b(q: &Value) -> bool {
     matches!(
         q.get("t").and_then(|t| t.as_str()).unwrap_or(""),
-        "join" | "nlj" | "cross" | "notin" | "union_all" | "union" | "join_agg" | "in_subquery" | "scalar_subquery"
+        "join" | "nlj" | "cross" | "notin" | "mark" | "setop" | "union_all" | "union" | "union_sorted" | "join_agg" | "join3" | "in_subquery" | "scalar_subquery"
     )
 }
 
-/// Whether the result is a sequence (total ORDER BY) rather than a multiset.
-pub fn ordered(q: &Value) -> bool {
-    matches!(q.get("t").and_then(|t| t.as_str()).unwrap_or(""), "sort" | "sort1" | "topk_agg" | "limit")
+/// Templates whose result can grow with the product of the table sizes: small tables only.
+pub fn needs_small_tables(q: &Value) -> bool {
+    matches!(q.get("t").and_then(|t| t.as_str()).unwrap_or(""), "cross" | "nlj" | "join3")
+}
+
+pub fn has_reference(q: &Value) -> bool {
+    matches!(
+        q.get("t").and_then(|t| t.as_str()).unwrap_or(""),
+        "join" | "nlj" | "cross" | "notin" | "mark" | "setop" | "groupby" | "groupby_filter" | "groupby_ord" | "rollup" | "having" | "distinct_aggs" | "groupby_str"
+            | "topk_ties" | "distinct_limit" | "global" | "distinct" | "topk_agg" | "sort" | "sort1" | "sort2" | "window_topn" | "limit_any" | "union_sorted"
+    )
+}
+
+/// How the result is to be compared with `reference` (and `universe`).
+pub fn compare_mode(q: &Value) -> Compare {
+    match q.get("t").and_then(|t| t.as_str()).unwrap_or("") {
+        "sort" | "sort1" | "sort2" | "topk_agg" | "limit" | "union_sorted" => Compare::Sequence,
+        "limit_any" | "distinct_limit" => Compare::LimitAny,
+        "topk_ties" => Compare::TopTies { from: 1 },
+        _ => Compare::Multiset,
+    }
 }
 
 fn i(x: i64) -> Option<String> {
     Some(x.to_string())
 }
-fn oi(x: Option<i64>) -> Option<String> {
-    x.map(|v| v.to_string())
-}
 
-fn keys_match(a: &Row, b: &Row, key: &str, nulleq: bool) -> bool {
-    let eq_k = match (a.k, b.k) {
-        (Some(x), Some(y)) => x == y,
-        (None, None) => nulleq,
-        _ => false,
-    };
-    let eq_s = match (&a.s, &b.s) {
-        (Some(x), Some(y)) => x == y,
-        (None, None) => nulleq,
-        _ => false,
-    };
-    match key {
-        "k" => eq_k,
-        "s" => eq_s,
-        _ => eq_k && eq_s,
-    }
-}
 fn v_less(a: &Row, b: &Row) -> bool {
     matches!((a.v, b.v), (Some(x), Some(y)) if x < y)
 }
@@ -271,24 +569,41 @@ fn join_reference(a: &[Row], b: &[Row], jt: &str, m: impl Fn(&Row, &Row) -> bool
     out
 }
 
-#[derive(Default)]
+#[derive(Default, Clone)]
 struct Acc {
     n: i64,
     nv: i64,
     sum: Option<i64>,
     min: Option<i64>,
     max: Option<i64>,
-    distinct: std::collections::BTreeSet<i64>,
+    distinct: BTreeSet<i64>,
+    ns: i64,
+    distinct_s: BTreeSet<String>,
+    min_s: Option<String>,
+    max_s: Option<String>,
+    /// (id, v, s) of the group's rows
+    rows: Vec<(i64, Option<i64>, Option<String>)>,
 }
 impl Acc {
     fn add(&mut self, r: &Row) {
         self.n += 1;
+        self.rows.push((r.id, r.v, r.s.clone()));
         if let Some(v) = r.v {
             self.nv += 1;
             self.sum = Some(self.sum.unwrap_or(0) + v);
             self.min = Some(self.min.map_or(v, |m| m.min(v)));
             self.max = Some(self.max.map_or(v, |m| m.max(v)));
             self.distinct.insert(v);
+        }
+        if let Some(s) = &r.s {
+            self.ns += 1;
+            self.distinct_s.insert(s.clone());
+            if self.min_s.as_ref().is_none_or(|m| s < m) {
+                self.min_s = Some(s.clone());
+            }
+            if self.max_s.as_ref().is_none_or(|m| s > m) {
+                self.max_s = Some(s.clone());
+            }
         }
     }
 }
@@ -309,17 +624,116 @@ fn cmp_opt<T: Ord>(a: &Option<T>, b: &Option<T>, desc: bool, nulls_first: bool) 
     }
 }
 
+type GKey = (Option<KOrd>, Option<String>);
+
+/// Groups `a` by the template's keys ("k" | "s" | "ks"); the value keeps one representative raw k
+/// (for printing) next to the accumulator.
+fn group(a: &[Row], keys: &str, kt: &str) -> BTreeMap<GKey, (Option<i32>, Acc)> {
+    let mut groups: BTreeMap<GKey, (Option<i32>, Acc)> = BTreeMap::new();
+    for r in a {
+        let g: GKey = match keys {
+            "k" => (kmap(kt, r.k), None),
+            "s" => (None, r.s.clone()),
+            _ => (kmap(kt, r.k), r.s.clone()),
+        };
+        let e = groups.entry(g).or_insert_with(|| (r.k, Acc::default()));
+        e.1.add(r);
+    }
+    groups
+}
+fn key_cells(keys: &str, kt: &str, g: &GKey, raw_k: Option<i32>) -> Cells {
+    // a group's printed key: bool keys collapse several raw k, so print from the mapped value
+    let ktxt = match (&g.0, kt) {
+        (None, _) => None,
+        (Some(KOrd::I(b)), "bool") => Some((*b == 1).to_string()),
+        _ => ktext(kt, raw_k),
+    };
+    match keys {
+        "k" => vec![ktxt],
+        "s" => vec![g.1.clone()],
+        _ => vec![ktxt, g.1.clone()],
+    }
+}
+
+fn sort_key_cmp(by: &str, kt: &str, x: &Row, y: &Row, desc: bool, nf: bool) -> std::cmp::Ordering {
+    match by {
+        "k" => cmp_opt(&kmap(kt, x.k), &kmap(kt, y.k), desc, nf),
+        "s" => cmp_opt(&x.s, &y.s, desc, nf),
+        _ => cmp_opt(&x.v, &y.v, desc, nf),
+    }
+}
+fn full_row(kt: &str, vt: &str, r: &Row) -> Cells {
+    vec![i(r.id), ktext(kt, r.k), r.s.clone(), vtext(vt, r.v)]
+}
+fn apply_limit(rows: Vec<Cells>, q: &Value) -> Option<Vec<Cells>> {
+    let off = match q.get("offset") {
+        Some(Value::Null) | None => 0,
+        Some(n) => n.as_u64()? as usize,
+    };
+    let lim = match q.get("limit") {
+        Some(Value::Null) | None => usize::MAX,
+        Some(n) => n.as_u64()? as usize,
+    };
+    Some(rows.into_iter().skip(off).take(lim).collect())
+}
+
+/// For `Compare::LimitAny` / `Compare::TopTies`: the rows the result may be drawn from.
+pub fn universe(q: &Value, a: &[Row], _b: &[Row]) -> Option<Vec<Cells>> {
+    let t = q.get("t")?.as_str()?;
+    let (kt, vt) = (kt_of(q), vt_of(q));
+    Some(match t {
+        "limit_any" => {
+            let c = q.get("c")?.as_i64()?;
+            a.iter().filter(|r| r.v.is_some_and(|v| v > c)).map(|r| vec![i(r.id)]).collect()
+        }
+        "distinct_limit" => group(a, "ks", kt).into_iter().map(|(g, (rk, _))| key_cells("ks", kt, &g, rk)).collect(),
+        "topk_ties" => {
+            let key = q.get("key")?.as_str()?;
+            let agg = q.get("agg")?.as_str()?;
+            group(a, key, kt)
+                .into_iter()
+                .map(|(g, (rk, acc))| {
+                    let mut row = key_cells(key, kt, &g, rk);
+                    row.push(vtext(vt, if agg == "min" { acc.min } else { acc.max }));
+                    row
+                })
+                .collect()
+        }
+        _ => return None,
+    })
+}
+
 /// Independent evaluation of the template over the raw rows; `None` if the template has no
-/// reference (then the baseline configuration is the oracle).
+/// reference (then the baseline configuration is the oracle). For `Compare::LimitAny` the returned
+/// rows are one valid answer (only its length is used); for `Compare::TopTies` one valid answer.
 pub fn reference(q: &Value, a: &[Row], b: &[Row]) -> Option<Vec<Cells>> {
     let t = q.get("t")?.as_str()?;
+    let (kt, vt) = (kt_of(q), vt_of(q));
+    kexpr(kt)?;
+    vexpr(vt)?;
+    let keq = |x: &Row, y: &Row, nulleq: bool| match (kmap(kt, x.k), kmap(kt, y.k)) {
+        (Some(p), Some(q)) => p == q,
+        (None, None) => nulleq,
+        _ => false,
+    };
+    let seq = |x: &Row, y: &Row, nulleq: bool| match (&x.s, &y.s) {
+        (Some(p), Some(q)) => p == q,
+        (None, None) => nulleq,
+        _ => false,
+    };
     Some(match t {
         "join" => {
             let jt = q.get("jt")?.as_str()?;
             let key = q.get("key")?.as_str()?.to_string();
             let nulleq = q.get("nulleq")?.as_bool()?;
             let residual = q.get("residual")?.as_bool()?;
-            join_reference(a, b, jt, |x, y| keys_match(x, y, &key, nulleq) && (!residual || v_less(x, y)))
+            join_reference(a, b, jt, |x, y| {
+                (match key.as_str() {
+                    "k" => keq(x, y, nulleq),
+                    "s" => seq(x, y, nulleq),
+                    _ => keq(x, y, nulleq) && seq(x, y, nulleq),
+                }) && (!residual || v_less(x, y))
+            })
         }
         "nlj" => join_reference(a, b, q.get("jt")?.as_str()?, v_less),
         "cross" => join_reference(a, b, "inner", |_, _| true),
@@ -332,32 +746,53 @@ pub fn reference(q: &Value, a: &[Row], b: &[Row]) -> Option<Vec<Cells>> {
                     }
                     match r.k {
                         None => false,
-                        Some(k) => !b_has_null && !b.iter().any(|x| x.k == Some(k)),
+                        Some(_) => !b_has_null && !b.iter().any(|x| keq(r, x, false)),
                     }
                 })
                 .map(|r| vec![i(r.id)])
                 .collect()
         }
+        "mark" => {
+            let residual = q.get("residual")?.as_bool()?;
+            let neg = q.get("neg")?.as_bool()?;
+            let c = q.get("c")?.as_i64()?;
+            a.iter()
+                .filter(|r| {
+                    let ex = b.iter().any(|x| keq(r, x, false) && (!residual || v_less(r, x)));
+                    (ex != neg) || r.v.is_some_and(|v| v > c)
+                })
+                .map(|r| vec![i(r.id)])
+                .collect()
+        }
+        "setop" => {
+            let cols = q.get("cols")?.as_str()?;
+            let op = q.get("op")?.as_str()?;
+            let ga = group(a, cols, kt);
+            let gb = group(b, cols, kt);
+            let mut out = vec![];
+            // (the ALL variants are left out: DataFusion plans INTERSECT ALL / EXCEPT ALL as plain semi /
+            // anti joins, which keeps every copy of the left side - a question of SQL semantics (C01),
+            // not of the join operators)
+            for (g, (rk, _acc)) in &ga {
+                let nb = gb.get(g).map_or(0, |x| x.1.n);
+                let copies = match op {
+                    "intersect" => (nb > 0) as i64,
+                    "except" => (nb == 0) as i64,
+                    _ => return None,
+                };
+                for _ in 0..copies {
+                    out.push(key_cells(cols, kt, g, *rk));
+                }
+            }
+            out
+        }
         "groupby" => {
             let keys = q.get("keys")?.as_str()?;
-            let mut groups: BTreeMap<(Option<i32>, Option<String>), Acc> = BTreeMap::new();
-            for r in a {
-                let k = match keys {
-                    "k" => (r.k, None),
-                    "s" => (None, r.s.clone()),
-                    _ => (r.k, r.s.clone()),
-                };
-                groups.entry(k).or_default().add(r);
-            }
-            groups
+            group(a, keys, kt)
                 .into_iter()
-                .map(|((k, s), acc)| {
-                    let mut row: Cells = match keys {
-                        "k" => vec![k.map(|x| x.to_string())],
-                        "s" => vec![s],
-                        _ => vec![k.map(|x| x.to_string()), s],
-                    };
-                    row.extend([i(acc.n), i(acc.nv), oi(acc.sum), oi(acc.min), oi(acc.max), i(acc.distinct.len() as i64)]);
+                .map(|(g, (rk, acc))| {
+                    let mut row = key_cells(keys, kt, &g, rk);
+                    row.extend([i(acc.n), i(acc.nv), vtext(vt, acc.sum), vtext(vt, acc.min), vtext(vt, acc.max), i(acc.distinct.len() as i64)]);
                     row
                 })
                 .collect()
@@ -366,117 +801,273 @@ pub fn reference(q: &Value, a: &[Row], b: &[Row]) -> Option<Vec<Cells>> {
             let keys = q.get("keys")?.as_str()?;
             let c = q.get("c")?.as_i64()?;
             // (count*, sum1, sumv) FILTER (v > c), count(*), max(v) FILTER (k IS NOT NULL)
-            let mut groups: BTreeMap<(Option<i32>, Option<String>), (i64, Option<i64>, Option<i64>, i64, Option<i64>)> = BTreeMap::new();
-            for r in a {
-                let k = match keys {
-                    "k" => (r.k, None),
-                    "s" => (None, r.s.clone()),
-                    _ => (r.k, r.s.clone()),
-                };
-                let e = groups.entry(k).or_insert((0, None, None, 0, None));
-                e.3 += 1;
-                if let Some(v) = r.v {
-                    if v > c {
-                        e.0 += 1;
-                        e.1 = Some(e.1.unwrap_or(0) + 1);
-                        e.2 = Some(e.2.unwrap_or(0) + v);
-                    }
-                    if r.k.is_some() {
-                        e.4 = Some(e.4.map_or(v, |m: i64| m.max(v)));
-                    }
-                }
-            }
-            groups
+            group(a, keys, kt)
                 .into_iter()
-                .map(|((k, s), e)| {
-                    let mut row: Cells = match keys {
-                        "k" => vec![k.map(|x| x.to_string())],
-                        "s" => vec![s],
-                        _ => vec![k.map(|x| x.to_string()), s],
-                    };
-                    row.extend([i(e.0), oi(e.1), oi(e.2), i(e.3), oi(e.4)]);
+                .map(|(g, (rk, acc))| {
+                    let pass: Vec<i64> = acc.rows.iter().filter_map(|(_, v, _)| v.filter(|v| *v > c)).collect();
+                    let mut row = key_cells(keys, kt, &g, rk);
+                    let sum1 = if pass.is_empty() { None } else { Some(pass.len() as i64) };
+                    let sumv = if pass.is_empty() { None } else { Some(pass.iter().sum::<i64>()) };
+                    // `k IS NOT NULL` is a property of the row; rows of one group may differ in it only
+                    // when k is not a grouping key
+                    let maxv = a
+                        .iter()
+                        .filter(|r| {
+                            let rg: GKey = match keys {
+                                "k" => (kmap(kt, r.k), None),
+                                "s" => (None, r.s.clone()),
+                                _ => (kmap(kt, r.k), r.s.clone()),
+                            };
+                            rg == g && r.k.is_some()
+                        })
+                        .filter_map(|r| r.v)
+                        .max();
+                    row.extend([i(pass.len() as i64), oi(sum1), vtext(vt, sumv), i(acc.n), vtext(vt, maxv)]);
                     row
                 })
                 .collect()
         }
+        "groupby_ord" => {
+            let keys = q.get("keys")?.as_str()?;
+            group(a, keys, kt)
+                .into_iter()
+                .map(|(g, (rk, mut acc))| {
+                    acc.rows.sort_by_key(|r| r.0);
+                    let mut row = key_cells(keys, kt, &g, rk);
+                    let first = acc.rows.first().and_then(|r| r.1);
+                    let last = acc.rows.last().and_then(|r| r.1);
+                    let second = acc.rows.get(1).and_then(|r| r.1);
+                    let strs: Vec<String> = acc.rows.iter().filter_map(|r| r.2.clone()).collect();
+                    let joined = if strs.is_empty() { None } else { Some(strs.join("|")) };
+                    row.extend([vtext(vt, first), vtext(vt, last), vtext(vt, second), joined, i(acc.n)]);
+                    row
+                })
+                .collect()
+        }
+        "rollup" => {
+            let sets: &[&str] = match q.get("kind")?.as_str()? {
+                "rollup" => &["ks", "k", ""],
+                "cube" => &["ks", "k", "s", ""],
+                "sets" => &["k", "s", ""],
+                _ => return None,
+            };
+            let mut out = vec![];
+            for set in sets {
+                if set.is_empty() {
+                    // the grand total: one row, also over an empty table
+                    let mut acc = Acc::default();
+                    for r in a {
+                        acc.add(r);
+                    }
+                    out.push(vec![None, None, i(acc.n), vtext(vt, acc.sum)]);
+                    continue;
+                }
+                for (g, (rk, acc)) in group(a, set, kt) {
+                    let kc = key_cells(set, kt, &g, rk);
+                    let (kcell, scell) = match *set {
+                        "k" => (kc[0].clone(), None),
+                        "s" => (None, kc[0].clone()),
+                        _ => (kc[0].clone(), kc[1].clone()),
+                    };
+                    out.push(vec![kcell, scell, i(acc.n), vtext(vt, acc.sum)]);
+                }
+            }
+            out
+        }
+        "having" => {
+            let keys = q.get("keys")?.as_str()?;
+            let n = q.get("n")?.as_u64()? as i64;
+            let c = q.get("c")?.as_i64()?;
+            group(a, keys, kt)
+                .into_iter()
+                .filter(|(_, (_, acc))| acc.n > n && (acc.max.is_some_and(|m| m > c) || acc.min.is_none()))
+                .map(|(g, (rk, acc))| {
+                    let mut row = key_cells(keys, kt, &g, rk);
+                    row.extend([i(acc.n), vtext(vt, acc.max)]);
+                    row
+                })
+                .collect()
+        }
+        "distinct_aggs" => {
+            let keys = q.get("keys")?.as_str()?;
+            if !["k", "s"].contains(&keys) {
+                return None;
+            }
+            let single = q.get("single")?.as_bool()?;
+            group(a, keys, kt)
+                .into_iter()
+                .map(|(g, (rk, acc))| {
+                    let mut row = key_cells(keys, kt, &g, rk);
+                    if single {
+                        let s = if acc.distinct.is_empty() { None } else { Some(acc.distinct.iter().sum::<i64>()) };
+                        row.extend([i(acc.distinct.len() as i64), vtext(vt, s)]);
+                    } else {
+                        row.extend([i(acc.distinct.len() as i64), i(acc.distinct_s.len() as i64), i(acc.n)]);
+                    }
+                    row
+                })
+                .collect()
+        }
+        "groupby_str" => {
+            let keys = q.get("keys")?.as_str()?;
+            if !["k", "ks"].contains(&keys) {
+                return None;
+            }
+            group(a, keys, kt)
+                .into_iter()
+                .map(|(g, (rk, acc))| {
+                    let mut row = key_cells(keys, kt, &g, rk);
+                    let pos: Vec<bool> = acc.rows.iter().filter_map(|r| r.1.map(|v| v > 0)).collect();
+                    let band = if pos.is_empty() { None } else { Some(pos.iter().all(|x| *x).to_string()) };
+                    let bor = if pos.is_empty() { None } else { Some(pos.iter().any(|x| *x).to_string()) };
+                    row.extend([acc.min_s.clone(), acc.max_s.clone(), i(acc.ns), band, bor]);
+                    row
+                })
+                .collect()
+        }
+        "topk_ties" => {
+            let desc = q.get("desc")?.as_bool()?;
+            let n = q.get("n")?.as_u64()? as usize;
+            let mut u = universe(q, a, b)?;
+            // order by the aggregate (last cell); its text is a number in every vt
+            let num = |c: &Option<String>| c.as_ref().and_then(|s| s.parse::<f64>().ok()).map(|f| (f * 100.0).round() as i64);
+            u.sort_by(|x, y| cmp_opt(&num(x.last().unwrap()), &num(y.last().unwrap()), desc, false));
+            u.into_iter().take(n).collect()
+        }
+        "distinct_limit" => {
+            let n = q.get("n")?.as_u64()? as usize;
+            universe(q, a, b)?.into_iter().take(n).collect()
+        }
+        "limit_any" => {
+            let n = q.get("n")?.as_u64()? as usize;
+            let m = q.get("m")?.as_u64()? as usize;
+            universe(q, a, b)?.into_iter().skip(m).take(n).collect()
+        }
         "global" => {
             let mut acc = Acc::default();
-            let mut ks = std::collections::BTreeSet::new();
+            let mut ks = BTreeSet::new();
             for r in a {
                 acc.add(r);
-                if let Some(k) = r.k {
+                if let Some(k) = kmap(kt, r.k) {
                     ks.insert(k);
                 }
             }
-            vec![vec![i(acc.n), i(acc.nv), oi(acc.sum), oi(acc.min), oi(acc.max), i(ks.len() as i64)]]
+            vec![vec![i(acc.n), i(acc.nv), vtext(vt, acc.sum), vtext(vt, acc.min), vtext(vt, acc.max), i(ks.len() as i64)]]
         }
-        "distinct" => {
-            let set: std::collections::BTreeSet<(Option<i32>, Option<String>)> = a.iter().map(|r| (r.k, r.s.clone())).collect();
-            set.into_iter().map(|(k, s)| vec![k.map(|x| x.to_string()), s]).collect()
-        }
+        "distinct" => group(a, "ks", kt).into_iter().map(|(g, (rk, _))| key_cells("ks", kt, &g, rk)).collect(),
         "topk_agg" => {
             let n = q.get("n")?.as_u64()? as usize;
-            let mut groups: BTreeMap<Option<i32>, Option<i64>> = BTreeMap::new();
-            for r in a {
-                let e = groups.entry(r.k).or_insert(None);
-                if let Some(v) = r.v {
-                    *e = Some(e.map_or(v, |m| m.max(v)));
-                }
-            }
-            let mut v: Vec<(Option<i32>, Option<i64>)> = groups.into_iter().collect();
-            v.sort_by(|x, y| cmp_opt(&x.1, &y.1, true, false).then(cmp_opt(&x.0, &y.0, false, false)));
-            v.into_iter().take(n).map(|(k, m)| vec![k.map(|x| x.to_string()), oi(m)]).collect()
+            let mut v: Vec<(GKey, Option<i32>, Option<i64>)> = group(a, "k", kt).into_iter().map(|(g, (rk, acc))| (g, rk, acc.max)).collect();
+            v.sort_by(|x, y| cmp_opt(&x.2, &y.2, true, false).then(cmp_opt(&x.0.0, &y.0.0, false, false)));
+            v.into_iter()
+                .take(n)
+                .map(|(g, rk, m)| {
+                    let mut row = key_cells("k", kt, &g, rk);
+                    row.push(vtext(vt, m));
+                    row
+                })
+                .collect()
         }
         "sort1" => {
             let by = q.get("by")?.as_str()?.to_string();
             let desc = q.get("desc")?.as_bool()?;
             let nf = q.get("nulls_first")?.as_bool()?;
-            let limit = match q.get("limit") {
-                Some(Value::Null) | None => usize::MAX,
-                Some(n) => n.as_u64()? as usize,
-            };
-            let mut vals: Vec<Option<String>> = vec![];
-            match by.as_str() {
-                "k" => {
-                    let mut x: Vec<Option<i32>> = a.iter().map(|r| r.k).collect();
-                    x.sort_by(|p, q| cmp_opt(p, q, desc, nf));
-                    vals.extend(x.into_iter().map(|v| v.map(|y| y.to_string())));
-                }
-                "v" => {
-                    let mut x: Vec<Option<i64>> = a.iter().map(|r| r.v).collect();
-                    x.sort_by(|p, q| cmp_opt(p, q, desc, nf));
-                    vals.extend(x.into_iter().map(|v| v.map(|y| y.to_string())));
-                }
-                _ => {
-                    let mut x: Vec<Option<String>> = a.iter().map(|r| r.s.clone()).collect();
-                    x.sort_by(|p, q| cmp_opt(p, q, desc, nf));
-                    vals.extend(x);
-                }
-            }
-            vals.into_iter().take(limit).map(|v| vec![v]).collect()
+            let mut rows: Vec<&Row> = a.iter().collect();
+            rows.sort_by(|x, y| sort_key_cmp(&by, kt, x, y, desc, nf));
+            let cells: Vec<Cells> = rows
+                .into_iter()
+                .map(|r| {
+                    vec![match by.as_str() {
+                        "k" => match (kmap(kt, r.k), kt) {
+                            (Some(KOrd::I(b)), "bool") => Some((b == 1).to_string()),
+                            _ => ktext(kt, r.k),
+                        },
+                        "s" => r.s.clone(),
+                        _ => vtext(vt, r.v),
+                    }]
+                })
+                .collect();
+            apply_limit(cells, q)?
         }
         "sort" => {
             let by = q.get("by")?.as_str()?.to_string();
             let desc = q.get("desc")?.as_bool()?;
             let nf = q.get("nulls_first")?.as_bool()?;
             let mut rows: Vec<&Row> = a.iter().collect();
+            rows.sort_by(|x, y| sort_key_cmp(&by, kt, x, y, desc, nf).then(x.id.cmp(&y.id)));
+            apply_limit(rows.into_iter().map(|r| full_row(kt, vt, r)).collect(), q)?
+        }
+        "sort2" => {
+            let by: Vec<String> = q.get("by")?.as_array()?.iter().filter_map(|x| x.as_str().map(|s| s.to_string())).collect();
+            let desc: Vec<bool> = q.get("desc")?.as_array()?.iter().filter_map(|x| x.as_bool()).collect();
+            let nf: Vec<bool> = q.get("nulls_first")?.as_array()?.iter().filter_map(|x| x.as_bool()).collect();
+            if by.len() != 2 || desc.len() != 2 || nf.len() != 2 {
+                return None;
+            }
+            let mut rows: Vec<&Row> = a.iter().collect();
             rows.sort_by(|x, y| {
-                let c = match by.as_str() {
-                    "k" => cmp_opt(&x.k, &y.k, desc, nf),
-                    "s" => cmp_opt(&x.s, &y.s, desc, nf),
-                    _ => cmp_opt(&x.v, &y.v, desc, nf),
-                };
-                c.then(x.id.cmp(&y.id))
+                sort_key_cmp(&by[0], kt, x, y, desc[0], nf[0]).then(sort_key_cmp(&by[1], kt, x, y, desc[1], nf[1])).then(x.id.cmp(&y.id))
             });
-            let limit = match q.get("limit") {
-                Some(Value::Null) | None => usize::MAX,
-                Some(n) => n.as_u64()? as usize,
-            };
-            rows.into_iter()
-                .take(limit)
-                .map(|r| vec![i(r.id), r.k.map(|x| x.to_string()), r.s.clone(), oi(r.v)])
-                .collect()
+            apply_limit(rows.into_iter().map(|r| full_row(kt, vt, r)).collect(), q)?
+        }
+        "window_topn" => {
+            let f = q.get("f")?.as_str()?;
+            let desc = q.get("desc")?.as_bool()?;
+            let nf = q.get("nulls_first")?.as_bool()?;
+            let n = q.get("n")?.as_u64()? as i64;
+            let mut parts: BTreeMap<Option<KOrd>, Vec<&Row>> = BTreeMap::new();
+            for r in a {
+                parts.entry(kmap(kt, r.k)).or_default().push(r);
+            }
+            let mut out = vec![];
+            for (_, mut rows) in parts {
+                rows.sort_by(|x, y| cmp_opt(&x.v, &y.v, desc, nf).then(x.id.cmp(&y.id)));
+                let (mut rank, mut dense) = (0i64, 0i64);
+                for (idx, r) in rows.iter().enumerate() {
+                    let new_peer = idx == 0 || rows[idx - 1].v != r.v;
+                    if new_peer {
+                        rank = idx as i64 + 1;
+                        dense += 1;
+                    }
+                    let rn = match f {
+                        "row_number" => idx as i64 + 1,
+                        "rank" => rank,
+                        "dense_rank" => dense,
+                        _ => return None,
+                    };
+                    if rn <= n {
+                        let ktxt = match (kmap(kt, r.k), kt) {
+                            (Some(KOrd::I(b)), "bool") => Some((b == 1).to_string()),
+                            _ => ktext(kt, r.k),
+                        };
+                        out.push(vec![i(r.id), ktxt, vtext(vt, r.v), i(rn)]);
+                    }
+                }
+            }
+            out
+        }
+        "union_sorted" => {
+            let desc = q.get("desc")?.as_bool()?;
+            let mut rows: Vec<&Row> = a.iter().chain(b.iter()).collect();
+            rows.sort_by(|x, y| cmp_opt(&kmap(kt, x.k), &kmap(kt, y.k), desc, false).then(x.id.cmp(&y.id)));
+            let cells = rows
+                .into_iter()
+                .map(|r| {
+                    vec![
+                        i(r.id),
+                        match (kmap(kt, r.k), kt) {
+                            (Some(KOrd::I(b)), "bool") => Some((b == 1).to_string()),
+                            _ => ktext(kt, r.k),
+                        },
+                    ]
+                })
+                .collect();
+            apply_limit(cells, q)?
         }
         _ => return None,
     })
+}
+
+fn oi(x: Option<i64>) -> Option<String> {
+    x.map(|v| v.to_string())
 }
